@@ -45,7 +45,7 @@ def configs(tier):
     # both ends stalled each needs the other to keep its read interest alive while it waits to write.  Loop style only
     # (both directions served from one loop), stall (+EAGAIN in thorough) deviations only, so the frontier stays small.
     for tp in ("tcp", "tls", "utlstls"):
-        c.append(("tp=%s,script=T2,style=loop,bp=1,menu=0x%x,%s" % (tp, 0x10 if q else 0x18, M), 2 if q else 3))
+        c.append(("tp=%s,script=T2,style=loop,bp=1,menu=0x%x,%s" % (tp, 0x10 if q else 0x18, M), 3 if q else 4))
     return c
 
 
